@@ -123,8 +123,15 @@ type Mode struct {
 	Kind    string `json:"kind"`              // long | persist | long+persist | objects (an engine per request over state and cache objects the application keeps)
 	Backend string `json:"backend,omitempty"` // mem fs fsbin pg (persist kinds)
 	// Reuse "flush" (persist kind): one persist.Persister created WithFlush serves every
-	// request - and every session - of the process, instead of a new one per request
+	// request - and every session - of the process, instead of a new one per request;
+	// "keep": one persister without flushing serves every session the store already knows
 	Reuse string `json:"reuse,omitempty"`
+}
+
+// stored: the store has a record for this session.
+func (s *Session) stored(store db.Db) bool {
+	p := persist.NewPersister(store).WithContent(state.NewState(s.Cfg.FlagCount), cache.NewCache())
+	return p.Load(s.Cfg.SessionId) == nil
 }
 
 // PerRequest: every request is served by an engine of its own.
@@ -290,7 +297,8 @@ func (s *Session) Request(input []byte) (step Step) {
 		if s.held != nil && s.heldWait > 0 && acceptable(input) {
 			s.heldWait--
 		}
-		if s.Mode.Reuse == "flush" {
+		switch {
+		case s.Mode.Reuse == "flush":
 			if s.PeBox == nil {
 				s.PeBox = &PeBox{}
 			}
@@ -298,7 +306,18 @@ func (s *Session) Request(input []byte) (step Step) {
 				s.PeBox.Pe = persist.NewPersister(store).WithFlush()
 			}
 			pe = s.PeBox.Pe
-		} else {
+		case s.Mode.Reuse == "keep" && s.stored(store):
+			// a worker that keeps its persister (and whatever it loaded last) for the sessions
+			// it finds in the store; a session the store does not know gets one of its own
+			// (content already in a persister is what a NEW session starts from)
+			if s.PeBox == nil {
+				s.PeBox = &PeBox{}
+			}
+			if s.PeBox.Pe == nil {
+				s.PeBox.Pe = persist.NewPersister(store)
+			}
+			pe = s.PeBox.Pe
+		default:
 			pe = persist.NewPersister(store)
 		}
 		en = s.newEngine().WithPersister(pe)
